@@ -15,7 +15,7 @@
    the implementation uses).  A name is the list of its character codes.
    Definitions only (no proofs) so that the model still runs when a proof breaks. *)
 From Coq Require Import String Ascii.
-From Coq Require Import ZArith QArith Qround List Bool.
+From Coq Require Import ZArith QArith Qabs Qround List Bool.
 Import ListNotations.
 Open Scope Z_scope.
 
@@ -490,3 +490,39 @@ Definition var_raster (w : Z) (img : list (list Q)) : list (list Q) :=
   let m1 := box_sum wn img in
   let m2 := box_sum wn (map (map (fun x => x * x)%Q) img) in
   map2 (map2 (fun a b => (b / ww - (a / ww) * (a / ww))%Q)) m1 m2.
+
+(* compute_std_raster, end: var[var < 10**(-15) * abs(mean_power_two)] = 0 ("avoid very small
+   values"); [eps] is the float 10**(-15) given as data.  a = window sum, b = window sum of squares *)
+Definition var_cell (eps ww a b : Q) : Q :=
+  let m2 := (b / ww)%Q in
+  let v := (m2 - (a / ww) * (a / ww))%Q in
+  if Qlt_bool v (eps * Qabs m2)%Q then 0%Q else v.
+
+Definition var_raster_z (eps : Q) (w : Z) (img : list (list Q)) : list (list Q) :=
+  let wn := Z.to_nat w in
+  let ww := inject_Z (w * w) in
+  let m1 := box_sum wn img in
+  let m2 := box_sum wn (map (map (fun x => x * x)%Q) img) in
+  map2 (map2 (var_cell eps ww)) m1 m2.
+
+(* np.nancumsum of the first pass (and of the first pass over the squares, NaN**2 = NaN):
+   a NaN pixel of the image counts as 0 *)
+Definition nan0 (x : oq) : Q := match x with Some q => q | None => 0%Q end.
+
+(* StdIntensity.confidence_prediction for an odd window w (the matching-cost schema refuses the
+   others): a band of NaN of the size of the image in which the (nr-w+1) x (nc-w+1) raster is
+   written at [off:-off, off:-off], off = int((w - 1) / 2) (the whole band when off = 0).
+   The band holds the VARIANCE (the model does not take the square root). *)
+Definition std_band (eps : Q) (w : Z) (img : list (list oq)) : list (list oq) :=
+  let off := Z.to_nat ((w - 1) / 2) in
+  let var := var_raster_z eps w (map (map nan0) img) in
+  map (fun ir =>
+         map (fun jx =>
+                if (off <=? fst ir)%nat && (off <=? fst jx)%nat then
+                  match nth_error var (fst ir - off) with
+                  | Some vrow => nth_error vrow (fst jx - off)
+                  | None => None
+                  end
+                else None)
+             (enumerate 0 (snd ir)))
+      (enumerate 0 img).
